@@ -57,7 +57,7 @@ PROPS = {
     "C02": dict(modules=["Rosmar.Properties.C02"], slices=[KV, KVD, SUBDOC],
                 proj=P(rb=ROW, results=True, ops={"wcas", "remove", "wwx", "wtx", "updx", "rmx", "uxdb", "swm", "dwm", "update", "wuwx"}),
                 what="results of CAS-conditional writes and the row before/after"),
-    "C04": dict(modules=["Rosmar.Properties.C04", "Rosmar.Gen.Tie"], slices=[CLOCK, CLOCKD, KV, COLLS, COLLSD],
+    "C04": dict(modules=["Rosmar.Properties.C04", "Rosmar.Gen.TiePure"], slices=[CLOCK, CLOCKD, KV, COLLS, COLLSD],
                 proj=P(rb=["row", "row.cas"], results=True, ops={"draw", "restart", "lastcas", "wcas", "remove", "touch", "setx", "updx", "wwx", "wtx", "wrx", "uxdb", "update", "wuwx"}),
                 what="every CAS handed out under adversarial clock scripts, draws by other buckets, close/reopen with a forgetful clock"),
     "C05": dict(modules=["Rosmar.Properties.C05"], slices=[KV, FEEDS, MULTI],
@@ -78,7 +78,7 @@ PROPS = {
                 what="on-disk histories with close/reopen in-process (restart) compared with the model; and fault enumeration: a child process "
                      "is SIGKILLed at instrumentation points (txn.begin, cas.afterwrite, txn.precommit, txn.committed, post.before, ...) and a "
                      "fresh process reopens and reads everything back"),
-    "C11": dict(modules=["Rosmar.Properties.C11", "Rosmar.Gen.Tie"], slices=[MULTI, MULTID, COLLS, COLLSD, VIEWM], proj=V.proj_all, isolation_search=True,
+    "C11": dict(modules=["Rosmar.Properties.C11", "Rosmar.Gen.TieFacts"], slices=[MULTI, MULTID, COLLS, COLLSD, VIEWM], proj=V.proj_all, isolation_search=True,
                 what="every key of every collection re-read after every operation on any collection"),
     "C03": dict(modules=["Rosmar.Properties.C03"], slices=[KV, KVD], proj=V.proj_all,
                 what="forced interleavings of compound calls (Update, WriteUpdateWithXattrs, WriteSubDoc, Incr) with other writers through the "
@@ -86,7 +86,7 @@ PROPS = {
     "C13": dict(modules=["Rosmar.Properties.C13"], slices=[REG], proj=V.proj_all,
                 what="registry scripts over 2 names x (memory + 2 directories) x 4 handles: open modes, close, repeated close, CloseAndDelete, "
                      "data probes; cluster.bucketCount / GetBucketNames / directories compared after every step; forced open/close races"),
-    "C14": dict(modules=["Rosmar.Properties.C14", "Rosmar.Gen.Tie"], slices=[EXPIRY, EXPIRYD, MULTI],
+    "C14": dict(modules=["Rosmar.Properties.C14", "Rosmar.Gen.TiePure"], slices=[EXPIRY, EXPIRYD, MULTI],
                 proj=P(rb=["row", "row.v", "row.exp", "row.tomb", "ge"], ev=["k", "op", "exp"], results=True,
                        ops={"expstate", "fire", "restart", "touch", "gat"}),
                 what="stored expiries, the expiry manager's next-fire time after every operation, sweeps at scripted times, reopen"),
@@ -305,8 +305,11 @@ def decide(pid, tier, seed, t0):
     log = {}
     gen_problems = V.prepare(log)
     obligations, discharged, broken, axioms = V.check_proofs(pid, cfg["modules"], log, thorough=(tier == "thorough"))
-    if gen_problems and any(m.startswith("Rosmar.Gen") for mod in cfg["modules"] for m in V.module_files(mod)):
-        broken = list(broken) + gen_problems
+    if gen_problems:
+        used = {m for mod in cfg["modules"] for m in V.module_files(mod)}
+        mine = [g for g in gen_problems if ("gen: pure:" in g and "Rosmar.Gen.Pure" in used) or ("gen: facts:" in g and "Rosmar.Gen.Facts" in used)
+                or ("gen: pure:" not in g and "gen: facts:" not in g and any(m.startswith("Rosmar.Gen") for m in used))]
+        broken = list(broken) + mine
     for mod in cfg.get("note_modules", []):
         # theorems documenting known findings: expected to stop holding when the code is repaired - a note, never a violation
         _, _, nb, _ = V.check_proofs(pid + "note", [mod], {})
